@@ -277,3 +277,75 @@ def wf_stager(s):
 def stager_bounded(s):
     """memory bound of the staging buffer: within the byte limit, except for a single record that alone exceeds it"""
     return s._bytes <= s.byte_limit or len(s._buf) <= 1
+
+
+# ---------------------------------------------------------------- C15: OrderedDict TTL/LRU caches (engine/cache.py)
+
+@spec
+def okeys(d):
+    """keys of an insertion-ordered map, oldest first"""
+    return list(d.keys())
+
+
+@spec
+def wf_nscache(s):
+    """representation invariant of _NamespaceCache (capacity from the validated config is >= 0)"""
+    return s._max >= 0 and len(s._d) <= s._max
+
+
+@spec
+def ttl_fresh(ttl, now, ts):
+    """an entry stamped ts is still served at clock reading now (ttl == 0 disables expiry)"""
+    return ttl == 0 or now - ts <= ttl
+
+
+@spec
+def removed_at(q, oldq, p):
+    """q is oldq with the element at position p removed, order of the others kept"""
+    return (len(q) == len(oldq) - 1 and 0 <= p and p < len(oldq)
+            and forall(i, 0 <= i < len(q), q[i] == ite(i < p, oldq[i], oldq[i + 1])))
+
+
+@spec
+def moved_to_end_at(q, oldq, p):
+    """q is oldq with the element at position p moved to the end (newest), order of the others kept"""
+    return (len(q) == len(oldq) and 0 <= p and p < len(oldq) and q[len(q) - 1] == oldq[p]
+            and forall(i, 0 <= i < len(q) - 1, q[i] == ite(i < p, oldq[i], oldq[i + 1])))
+
+
+@spec
+def same_omap(d, oldd):
+    """ordered map unchanged: same keys, same entries, same recency order"""
+    return seq_eq(d, oldd) and seq_eq(okeys(d), okeys(oldd))
+
+
+@spec
+def suffix_from(q, oldq, off):
+    """q is oldq without its first `off` (oldest) elements"""
+    return len(q) == len(oldq) - off and forall(i, 0 <= i < len(q), q[i] == oldq[i + off])
+
+
+@spec
+def same_entries(d, oldd):
+    """every key of d was in oldd with the same entry (timestamp and value)"""
+    return forall((k, 'Un[K]'), k in d, k in oldd and d[k] == oldd[k])
+
+
+# ---------------------------------------------------------------- C19: reflection
+
+@spec
+def ntokens(s):
+    """number of space separated tokens of a summary ('' has none)"""
+    return ite(s == "", 0, len(s.split(" ")))
+
+
+@spec
+def no_space_in(xs):
+    return forall(i, 0 <= i < len(xs), not (" " in xs[i]))
+
+
+@spec
+def episode_id_of(agent, turn, slot, text):
+    """the reflection episode id as a function of (agent id, turn id, slot, text) only"""
+    return ("refl-" + turn + "-" + agent + "-" + str(slot) + "-" +
+            sha256_hex(agent + "|" + turn + "|" + str(slot) + "|" + text)[:12])
